@@ -859,6 +859,14 @@ func c10TokenStartDiscipline(c *Ctx, r *Report, clause string) {
 					ok = true
 				}
 			}
+			// or through ignore(), which is held to the same obligation
+			if es, isE := st.(*ast.ExprStmt); isE && name != "ignore" {
+				if call, isC := es.X.(*ast.CallExpr); isC {
+					if fn := callee(info, call); fn != nil && fn.Name() == "ignore" && c.FuncOf(fn) != nil {
+						ok = true
+					}
+				}
+			}
 		}
 		r.Check(ok, clause, "R2 ORDER", f.Name+"/start-moves-up-to-end", c.pos(f.Decl.Pos()),
 			name+" sets start = end unconditionally: the next token's text begins after this one",
@@ -2411,4 +2419,138 @@ func eofRune(f *FuncRef) int64 {
 		}
 	}
 	return -1
+}
+
+// c11LiteralValue: the token value of a character literal is the character it denotes — 'c' gives "c", an escaped
+// '\x' gives the escaped character without its backslash. All three numbering sites take the value's first rune as
+// the token's code and genTempName(value) as the symbol's name, so a value that still carries the backslash numbers
+// '\'' as 92. Decided per emitting path of charaterState (plain / escaped, as in c10CharLiteralExtent): the value is
+// (a concatenation of "" and) the rune of the right next() call, the constant that rune was compared equal to, or
+// the input slice from just behind that position to just before the closing quote.
+func c11LiteralValue(c *Ctx, r *Report, clause string) {
+	f := c.need(r, clause, "Parser", "", "charaterState")
+	if f == nil {
+		return
+	}
+	info := f.Pkg.TypesInfo
+	key := f.Name + "/literal-value-is-the-character"
+	paths, err := newPathEnum(info).Enumerate(f.Decl.Body.List)
+	if err != nil {
+		r.Undecided(clause, "R1 PROVENANCE", key, c.pos(f.Decl.Pos()), err.Error())
+		return
+	}
+	isNext := func(t *Term) bool { return t != nil && t.Op == "call" && strings.HasSuffix(t.Name, "lexer).next") }
+	var bad, undecided []string
+	nEmit := 0
+	for _, esc := range []bool{false, true} {
+		first := int64('a')
+		kind := "a plain character"
+		if esc {
+			first, kind = '\\', "an escaped character"
+		}
+		for _, p := range paths {
+			var nexts []ast.Node
+			var value *Term
+			for _, e := range p.Effects {
+				if e.Kind != "call" {
+					continue
+				}
+				if isNext(e.Term) {
+					nexts = append(nexts, e.Term.Node)
+				}
+				if strings.HasSuffix(e.Term.Name, "lexer).emitValue") && len(e.Term.Args) == 3 {
+					value = e.Term.Args[2]
+				}
+			}
+			if value == nil || len(nexts) == 0 {
+				continue
+			}
+			// consistent with the first rune? and which constant is each later rune known to equal?
+			consistent := true
+			equals := map[ast.Node]int64{}
+			for _, cd := range p.Conds {
+				if cd.Atom.Op != "cmp" || len(cd.Atom.Args) != 2 {
+					continue
+				}
+				a, b := cd.Atom.Args[0], cd.Atom.Args[1]
+				if !isNext(a) || b.Val == nil || b.Val.Kind() != constant.Int || (cd.Atom.Name != "==" && cd.Atom.Name != "!=") {
+					continue
+				}
+				v, _ := constant.Int64Val(b.Val)
+				isEq := (cd.Atom.Name == "==") == cd.Pol
+				if a.Node == nexts[0] {
+					if (first == v) != isEq {
+						consistent = false
+					}
+				} else if isEq {
+					equals[a.Node] = v
+				}
+			}
+			if !consistent {
+				continue
+			}
+			nEmit++
+			at := 0 // index of the next() call that reads the denoted character
+			if esc {
+				at = 1
+			}
+			if len(nexts) <= at {
+				bad = append(bad, fmt.Sprintf("the token for %s is emitted before the character was read", kind))
+				continue
+			}
+			// strip concatenations with the empty string
+			for value.Op == "arith" && value.Name == "+" && len(value.Args) == 2 {
+				if s, ok := termString(value.Args[0]); ok && s == "" {
+					value = value.Args[1]
+				} else if s, ok := termString(value.Args[1]); ok && s == "" {
+					value = value.Args[0]
+				} else {
+					break
+				}
+			}
+			switch {
+			case isNext(value):
+				if value.Node != nexts[at] {
+					bad = append(bad, fmt.Sprintf("the value of %s is the rune of another next() call than the one that reads the character", kind))
+				}
+			case value.Op == "const":
+				s, ok := termString(value)
+				want, known := equals[nexts[at]]
+				if !ok || !known || len([]rune(s)) != 1 || int64([]rune(s)[0]) != want {
+					bad = append(bad, fmt.Sprintf("the value of %s is the constant %s, which is not what the character was compared equal to", kind, value.String()))
+				}
+			case value.Op == "slice" && len(value.Args) == 3 && value.Args[1] != nil && value.Args[2] != nil:
+				lo, hi := value.Args[1].String(), value.Args[2].String()
+				wantLo := fmt.Sprintf("(l.start + %d)", at+1)
+				recv := "l"
+				if f.Decl.Type.Params != nil && len(f.Decl.Type.Params.List) == 1 && len(f.Decl.Type.Params.List[0].Names) == 1 {
+					recv = f.Decl.Type.Params.List[0].Names[0].Name
+				}
+				wantLo = strings.Replace(wantLo, "l.", recv+".", 1)
+				wantHi := "(" + recv + ".end - 1)"
+				if !strings.HasSuffix(value.Args[0].String(), ".input") {
+					undecided = append(undecided, "the value of "+kind+" is a slice of "+value.Args[0].String())
+				} else if lo != wantLo || hi != wantHi {
+					bad = append(bad, fmt.Sprintf("the value of %s is input[%s:%s]; the denoted character is input[%s:%s] (%s)", kind, lo, hi, wantLo, wantHi, map[bool]string{true: "the opening quote and the backslash are not part of it", false: "the opening quote is not part of it"}[esc]))
+				}
+			default:
+				undecided = append(undecided, "the value of "+kind+" is "+value.String())
+			}
+		}
+	}
+	if len(undecided) > 0 && len(bad) == 0 {
+		r.Undecided(clause, "R1 PROVENANCE", key, c.pos(f.Decl.Pos()), strings.Join(dedupStrings(undecided), "; "))
+		return
+	}
+	sortStrings(bad)
+	r.Check(len(bad) == 0 && nEmit >= 2, clause, "R1 PROVENANCE", key, c.pos(f.Decl.Pos()),
+		fmt.Sprintf("%d emitting path(s): the value is the denoted character — the rune read for 'c', the escaped character without its backslash for '\\c'", nEmit),
+		"a character literal's token value is not the character it denotes, and its first rune is the token's code: "+strings.Join(dedupStrings(bad), "; "))
+}
+
+func termString(t *Term) (string, bool) {
+	if t == nil || t.Op != "const" || t.Val == nil || t.Val.Kind() != constant.String {
+		return "", false
+	}
+	return constant.StringVal(t.Val), true
 }
